@@ -108,6 +108,21 @@ def replay(cases):
                     viol.append(("addSec/sub-second", "%s.addSec(0.25) = %s" % (_fields(r), _fields(r3)), c["day"]))
             except Exception as e:  # pragma: no cover
                 viol.append(("readUnixTime", "second conversion in the same second raised %r" % (e,), c["day"]))
+        # ---- seconds are floats: an instant (or an offset) with a sub-millisecond part just below a whole second comes back as a
+        #      WELL-FORMED timestamp (ms 0..999) within one millisecond - .999 of that second or .000 of the next
+        frac = (0.9996, 0.99999, 0.9995001)[c["day"] % 3]
+        sec0 = c["tod"] // 1000
+        try:
+            r4 = ObsTime.readUnixTime(c["day"] * 86400 + sec0 + frac)
+            if not _same_instant(r4, (y, m, d), sec0 * 1000 + frac * 1000, False, alt):
+                viol.append(("readUnixTime/sub-millisecond", "readUnixTime(%r) = %s" % (c["day"] * 86400 + sec0 + frac, _fields(r4)), c["day"]))
+            elif (c["day"] + h) % 2:
+                t0 = ObsTime(y, m, d, h, mi, s, 0)
+                r5 = t0.addSec(frac)
+                if not _same_instant(r5, (y, m, d), sec0 * 1000 + frac * 1000, False, alt):
+                    viol.append(("addSec/sub-millisecond", "%s.addSec(%r) = %s" % (_fields(t0), frac, _fields(r5)), c["day"]))
+        except Exception as e:  # pragma: no cover
+            viol.append(("readUnixTime/sub-millisecond", "instant %r raised %r" % (c["day"] * 86400 + sec0 + frac, e), c["day"]))
         # ---- day of the week (growth of the clock model)
         try:
             dow = t.getDayOfWeek()
